@@ -326,6 +326,18 @@ def runner_check(ctx, test_exe, driver, rng, thorough, prop, clause):
                                                {"input": rcases[ci][:first] + ["end"], "observed": o, "expected": m, "runner": True}))
     ctx.cov["runner_cases"] = len(rcases)
     ctx.count("runner-histories", len(rcases))
+    # the client constructors: every connection registers its housekeeping with the configured runner, whatever else is configured
+    ct = ["ctor %s %s %s" % (t, b, m) for t in ("udp", "dtls", "tcp") for b in ("bw", "nobw") for m in ("mon", "nomon")]
+    cto = common.run_test_harness(ctx, test_exe, "TestC18Ctor", ct, timeout=300, tag="ctor")
+    if cto and len(cto) == len(ct):
+        for l, o in zip(ct, cto):
+            if o != "registered 1 live 1 afterclose 0" and o != "conn-error":
+                ctx.violations.append(common.Violation(clause, "%s:constructor-housekeeping:%s" % (prop, l.split()[1]),
+                                                       "%s: observed `%s`: a connection made by this constructor must register exactly one housekeeping function "
+                                                       "with the periodic runner, live while the connection is open and finished once it is closed "
+                                                       "(retransmissions, expiry of message-ID continuations, cached replies and block-wise buffers depend on it)" % (l, o),
+                                                       {"input": [l], "observed": o, "ctor": True}))
+        ctx.count("constructor-housekeeping", len(ct))
     # the table the stream / DTLS servers tick (pkg/connections): overlapping stores and deletes from the per-connection
     # goroutines must not lose a connection (real goroutines: evidence, the table is a sync.Map)
     cl = ["conns %d %d 8" % (ctx.seed, 1500 if thorough else 300)]
@@ -347,6 +359,13 @@ def run(ctx):
 def replay(ctx, rep):
     art = common.standard_prepare(ctx, MODULES, hx=False, test=True, generated=GENERATED)
     lines = rep.get("input") or []
+    if lines and lines[0].startswith("ctor"):
+        o = common.run_test_harness(ctx, art["test"], "TestC18Ctor", lines, tag="replay")
+        print("%s: %s" % (lines[0], o))
+        if o and o[0] != "registered 1 live 1 afterclose 0":
+            print("VIOLATION property=%s replay=(replayed) still reproduces" % ctx.prop)
+            return 1
+        return 0
     if lines and lines[0].startswith("conns"):
         o = common.run_test_harness(ctx, art["test"], "TestC18Conns", lines, tag="replay")
         print("%s: %s" % (lines[0], o))
